@@ -346,3 +346,4 @@ mut('C11', 'inout-as-output', 'verilog.py', '    def inout(self, args): return s
 mut('C11', 'grammar-range-sep-kept', 'verilog.py', 'range: "[" /[0-9]+/ (":" /[0-9]+/)? "]"', 'range: "[" /[0-9]+/ (/:/ /[0-9]+/)? "]"', ['C11.grammar', 'C11.lexical'])
 mut('C11', 'concat-callback-renamed', 'verilog.py', '    def concat(self, args):', '    def concatenation(self, args):', 'C11.grammar')
 neutral('C11', 'n-comment', 'verilog.py', '        for decls in args[2:]:  # pass 0: collect signal declarations', '        for decls in args[2:]:  # pass 0 - declarations')
+mut('C06', 'hash-int32-overflow', 'wave_sim.py', '_rnd = (int(seed) << 4) + (int(z_idx) << 20) + int(simctl_int[0])', '_rnd = (seed << 4) + (z_idx << 20) + simctl_int[0]', 'C06.dataset')
